@@ -669,7 +669,7 @@ def family(name, props):
     return deco
 
 
-CONTRACT_MODULES = ["bisection", "leaves", "train", "spline", "planar", "combinators", "shapes", "distributions", "masks", "losses", "wrappers", "wrappers13", "params11", "integrate04", "purity", "structured", "datafit", "triangular", "simple", "mixture", "bnaf"]
+CONTRACT_MODULES = ["bisection", "leaves", "train", "spline", "planar", "combinators", "shapes", "distributions", "masks", "losses", "wrappers", "wrappers13", "params11", "integrate04", "purity", "structured", "datafit", "triangular", "simple", "mixture", "bnaf", "flowsfac"]
 
 
 def load_contracts():
